@@ -3,6 +3,7 @@ package props
 import (
 	"fmt"
 	"math/big"
+	"sort"
 	"strings"
 
 	ethbridgetypes "github.com/Sifchain/sifnode/x/ethbridge/types"
@@ -153,8 +154,50 @@ func RunBridgeHistories(c Ctx, rep *report.Report, rng *chain.Rng, o BOpts, next
 		if hI%4 == 3 {
 			powers, wl, nv = []int64{35, 30, 20, 15}, []bool{true, true, true, true}, 4
 		}
+		// a third of the chains start from a genesis that is paused and carries a blacklist (and, as an export without a fee
+		// receiver writes it, an empty receiver): what the genesis says must be in force from the first block
+		gPaused, gBlack := false, []string(nil)
+		if rng.Intn(3) == 0 {
+			gPaused = rng.Intn(2) == 0
+			gBlack = []string{ethAddrs[3]}
+			if rng.Intn(2) == 0 {
+				gBlack = append(gBlack, ethAddrs[1])
+			}
+			env.BridgeGenesisTweak = func(g *ethbridgetypes.GenesisState) {
+				g.Pause = &ethbridgetypes.Pause{IsPaused: gPaused}
+				g.Blacklist = gBlack
+			}
+		}
 		e := env.NewBridge(powers, wl, 3)
-		h := BHistory{ID: hI, Env: e, Desc: map[string]interface{}{"seed": c.Seed, "history": hI, "powers": powers, "whitelisted": wl}}
+		env.BridgeGenesisTweak = nil
+		h := BHistory{ID: hI, Env: e, Desc: map[string]interface{}{"seed": c.Seed, "history": hI, "powers": powers, "whitelisted": wl, "genesis_paused": gPaused, "genesis_blacklist": gBlack}}
+		{
+			s0 := e.Snapshot()
+			var wantB, wantP []int64
+			for _, a := range e.Genesis.Blacklist {
+				wantB = append(wantB, e.EthID(a))
+			}
+			for _, t := range e.Genesis.PeggyTokens {
+				wantP = append(wantP, env.SymbolID(t))
+			}
+			asSet := func(l []int64) string {
+				m := map[int64]bool{}
+				for _, x := range l {
+					m[x] = true
+				}
+				var o []int64
+				for x := range m {
+					o = append(o, x)
+				}
+				sort.Slice(o, func(i, j int) bool { return o[i] < o[j] })
+				return fmt.Sprint(o)
+			}
+			if s0.Paused != gPaused || asSet(s0.Blacklist) != asSet(wantB) || asSet(s0.Peggy) != asSet(wantP) {
+				rep.Violate("bridge/genesis-not-in-force", fmt.Sprintf("the genesis says paused=%v, blacklist %v, pegged tokens %v; the chain started from it has paused=%v, blacklist %s, pegged tokens %s",
+					gPaused, gBlack, e.Genesis.PeggyTokens, s0.Paused, asSet(s0.Blacklist), asSet(s0.Peggy)), h.replay(0))
+			}
+			rep.Count(fmt.Sprintf("genesis.paused=%v.blacklist=%d", gPaused, len(gBlack)))
+		}
 		if rng.Intn(3) == 0 {
 			m := ethbridgetypes.NewMsgUpdateCethReceiverAccount(e.OracleAdm.Addr, e.Users[2].Addr)
 			mustOK(e.Tx(e.OracleAdm, &m), "ceth receiver")
